@@ -22,12 +22,12 @@ var zzErrHuffman = errors.New("huffman not modelled")
 // fields, same error/no-error, for every byte string up to the bound. Huffman
 // decoding is replaced in both by the same refusing stub, so Huffman-coded
 // strings are an error in both (not compared).
-func VerifC18_HpackDecodeDiff() {
+func VerifC18_HpackDecodeDiff_T() {
 	verif.NoPanic()
 	stub := func(buf *bytes.Buffer, maxLen int, v []byte) error { return zzErrHuffman }
 	verif.Replace("mosn.io/mosn/pkg/module/http2/hpack.huffmanDecode", stub)
 	verif.Replace("golang.org/x/net/http2/hpack.huffmanDecode", stub)
-	n := verif.Len("n", 0, verif.Param("HN", 5, 7))
+	n := verif.Len("n", 0, verif.Param("HN", 2, 2))
 	s := verif.Bytes("s", n)
 	// strings must not carry the Huffman flag natively (the stub exists only under the engine):
 	// the flag bit is the top bit of a string-length byte; excluding bytes >= 0x80 that follow a
